@@ -38,7 +38,7 @@ class Scenario:
                 % (name, "jabber:component:accept" if comp else "jabber:client", NS_STREAM, self.sid))
 
     def features(self, starttls=False, mechs=None, bind=False, session=None, sm=False, unknown=False,
-                 required=False):
+                 required=False, compression=None):
         parts = []
         if starttls:
             parts.append("<starttls xmlns='%s'>%s</starttls>" % (NS_TLS, "<required/>" if required else ""))
@@ -51,6 +51,9 @@ class Scenario:
             parts.append("<session xmlns='%s'>%s</session>" % (NS_SESSION, "<optional/>" if session == "optional" else ""))
         if sm:
             parts.append("<sm xmlns='%s'/>" % NS_SM)
+        if compression is not None:
+            parts.append("<compression xmlns='http://jabber.org/features/compress'>%s</compression>" %
+                         "".join("<method>%s</method>" % m for m in compression))
         if unknown:
             parts.append("<ver xmlns='urn:xmpp:features:rosterver'/>")
         self.rng.shuffle(parts)
@@ -152,8 +155,11 @@ def gen_session(rng, tier, profile="mixed"):
     if policy:
         flags = rng.randrange(256)          # every flag word, accepted or refused by the API
     flags &= ~F_COMPRESS
-    if rng.random() < 0.1:
-        flags |= F_COMPRESS             # allowed by the user, never offered by the scripted server
+    if rng.random() < 0.1 or profile == "compress":
+        flags |= F_COMPRESS             # allowed by the user; the scripted server never grants it
+    s.force_comp = profile == "compress"
+    if profile == "compress":
+        flags &= ~(F_LEGACY_SSL | F_MANDATORY_TLS)
     ctype = rng.choice(["c"] * 8 + ["k", "r"])
     jid = rng.choice(["user@example.org/res", "user@example.org", "example.org", "u@example.org/",
                       "a,b=c@example.org/r"])
@@ -313,7 +319,20 @@ def one_stream(s, rng, flags, ctype, jid, pw, cert, sm_resumable):
     # post-auth stream
     want_sm = rng.random() < 0.7
     sess = rng.choice([None, None, "required", "optional"])
-    send(s.header() + s.features(bind=rng.random() < 0.93, session=sess, sm=want_sm, unknown=rng.random() < 0.1))
+    comp = rng.choice([None, None, None, ["zlib"], ["zlib"], ["lzw"], ["lzw", "zlib"], []])
+    if getattr(s, "force_comp", False) and rng.random() < 0.85:
+        comp = rng.choice([["zlib"], ["zlib"], ["lzw", "zlib"]])
+    send(s.header() + s.features(bind=rng.random() < 0.93, session=sess, sm=want_sm, unknown=rng.random() < 0.1,
+                                 compression=comp))
+    if (flags & F_COMPRESS) and comp and "zlib" in comp:
+        # the client asks for compression; this server never grants it (a compressed stream is
+        # engine `zl`'s subject): the negotiation must not go on as if it had
+        send(rng.choice(["<failure xmlns='http://jabber.org/protocol/compress'><setup-failed/></failure>",
+                         "<failure xmlns='http://jabber.org/protocol/compress'><unsupported-method/></failure>",
+                         "<failure xmlns='http://jabber.org/protocol/compress'/>"]))
+        ops.append("run")
+        traffic(s, rng, False)
+        return
     sm_on = want_sm and not (flags & F_DISABLE_SM)
     if sm_resumable and sm_on and rng.random() < 0.8:
         r = rng.random()
@@ -460,6 +479,9 @@ def digest_challenge(rng):
         txt = 'realm="x",qop="auth"'
     elif k < 0.8:
         txt = 'nonce="a\\"b",realm="r\\\\q"'
+    elif k < 0.84:
+        txt = rng.choice(['realm="localhost",nonce="abc\\', 'nonce="abc', 'nonce="abc\\"', 'nonce="a",realm=\\',
+                          'nonce="a",qop="auth\\'])
     elif k < 0.9:
         txt = ""
     else:
